@@ -261,6 +261,13 @@ def main(argv):
         for v in r.get("violations", []):
             viols.append((r["key"], v))
     replays = {}
+    # concrete cross-checks on the real build that the harness asks for regardless of the solver's findings (things the symbolic
+    # model cannot see, e.g. the process hash seed); a failing one is reported exactly like a reproduced counterexample
+    n_cross = 0
+    if hasattr(mod, "real_checks"):
+        for cse in mod.real_checks(tier):
+            viols.append(("real-build-cross-check", dict(name="real-build-cross-check:" + cse.get("name", "?"), known=None, count=1, decisions=[], model={}, case=cse, cross=True)))
+            n_cross += 1
     # cap the replay work: at most 4 per (config, obligation kind), 60 overall
     seen_kind, keep = {}, []
     for i, (key, v) in enumerate(viols):
@@ -286,6 +293,8 @@ def main(argv):
     unconfirmed = 0
     for i, (key, v) in enumerate(viols):
         rep = replays.get(i)
+        if v.get("cross") and not (rep or {}).get("reproduced"):
+            continue                         # cross-check passed (or could not run: reported below)
         if rep is None or not rep.get("reproduced"):
             if (v["name"].split("[")[0], v.get("known")) in confirmed_kinds:
                 # another counterexample to the same obligation reproduced on the real build; this model sits on a
@@ -368,7 +377,7 @@ def main(argv):
             functions_encoded=functions, bounds=meta.get("bounds", {}).get(tier, ""), outside_bounds=meta.get("outside", ""),
             stubs=meta.get("stubs", []), technique=meta.get("technique", ""),
             translator_validation=tv, samples=samples or [dict(note="no path sample recorded")],
-            counterexamples_replayed=len(replays), counterexamples_unconfirmed_same_kind_confirmed=unconfirmed, counterexamples_reproduced=sum(1 for r in replays.values() if r.get("reproduced")),
+            real_build_cross_checks=n_cross, counterexamples_replayed=len(replays) - n_cross, counterexamples_unconfirmed_same_kind_confirmed=unconfirmed, counterexamples_reproduced=sum(1 for r in replays.values() if r.get("reproduced")),
             known_findings_hit=sorted(known_hits), fixed_findings_listed=[f["id"] for f in fixed_f],
             exhaustive=not (truncated or inconc),
             explanation="bounded symbolic execution of the repository's source; see DESIGN.md " + meta.get("design_ref", ""),
